@@ -242,16 +242,18 @@ Proof.
     exists x. unfold fpL. apply (lookup_In_iff _ x k Hnk) in Hi. rewrite Hi. destruct k; [destruct Hl | exact Hl].
 Qed.
 
-(* ---------- the statement, for one fuel *)
-Definition det_at (f : nat) : Prop :=
+(* ---------- the statement, for one fuel: two tick relations (two ways of running the ticks of system simulations) agree *)
+Definition rdet (IA IB : ntick_rel) (f : nat) : Prop :=
   forall lv, subtree_ok f lv ->
   forall time chgA chgB sA sB sA' sB' outA outB caA caB obA obB,
     NoDup (keys chgA) -> NoDup (keys chgB) -> eqv chgA chgB ->
     NSR (devices_below cfg f lv) (levels_below cfg f lv) sA sB ->
-    NT cfg devf f lv time chgA sA sA' outA caA obA -> NT cfg devf f lv time chgB sB sB' outB caB obB ->
+    IA lv time chgA sA sA' outA caA obA -> IB lv time chgB sB sB' outB caB obB ->
     eqv outA outB /\ NoDup (keys outA) /\ NoDup (keys outB) /\ caA = caB /\
     NSR (devices_below cfg f lv) (levels_below cfg f lv) sA' sB' /\
     (forall d, obs_rel (dev_obs d obA) (dev_obs d obB)).
+Definition det_at (f : nat) : Prop := rdet (NT cfg devf f) (NT cfg devf f) f.
+Definition inner_nd (I : ntick_rel) : Prop := forall lv time chg s s' out ca ob, I lv time chg s s' out ca ob -> NoDup (keys out).
 
 (* the output changes of a nested tick never mention a port twice *)
 Lemma exposed_nd conns comps t roots ext st tr : Run conns comps t roots ext st tr -> NoDup (keys (exposed tr)).
@@ -271,30 +273,33 @@ Lemma dev_obs_single d (o : obs) : dev_obs d [o] = if Pos.eqb (obs_comp o) d the
 Proof. reflexivity. Qed.
 
 (* ---------- one component, locally: two runs that agree on its footprint answer and change alike *)
-Lemma step_nd f lv time ext_chg a s s1 ans ca o :
-  NoDup (keys ext_chg) -> comp_step0 cfg devf (NT cfg devf f) lv time ext_chg a s s1 ans ca o -> NoDup (keys ans).
+Lemma step_nd (I : ntick_rel) lv time ext_chg a s s1 ans ca o : inner_nd I ->
+  NoDup (keys ext_chg) -> comp_step0 cfg devf I lv time ext_chg a s s1 ans ca o -> NoDup (keys ans).
 Proof.
-  intros Hext. unfold comp_step0. destruct a as [x t0 chg|x t0].
+  intros HI Hext. unfold comp_step0. destruct a as [x t0 chg|x t0].
   - destruct (Pos.eqb x ext_id); [intros [_ [-> _]]; exact Hext|].
     destruct (Pos.eqb x exp_id); [intros [_ [-> _]]; constructor|].
     destruct (lookup x (l_order (level_of cfg lv))) as [[|lv']|]; [| |intros []].
     + intros [o0 [Hd _]].
       pose proof (dev_update_view devf s x time chg) as V. rewrite Hd in V. cbv zeta in V. destruct V as [_ [_ [E _]]]. rewrite E.
       unfold diff_outputs. apply NoDup_keys_filter. apply Hdev_nd.
-    + apply NT_out_nd.
+    + apply HI.
   - intros [_ [-> _]]. constructor.
 Qed.
+
+Lemma NT_inner_nd f : inner_nd (NT cfg devf f).
+Proof. intros lv time chg s s' out ca ob. apply NT_out_nd. Qed.
 
 Lemma obs_rel_refl_nil : obs_rel [] [].
 Proof. constructor. Qed.
 
-Lemma step_det f lv time extA extB a b sA sB sA1 sB1 ansA ansB caA caB oA oB :
-  det_at f -> subtree_ok (S f) lv ->
+Lemma step_det (IA IB : ntick_rel) f lv time extA extB a b sA sB sA1 sB1 ansA ansB caA caB oA oB :
+  rdet IA IB f -> subtree_ok (S f) lv ->
   NoDup (keys extA) -> NoDup (keys extB) -> eqv extA extB ->
   action_equiv a b -> nd_action a -> nd_action b ->
   NSR (fpD f lv (act_comp a)) (fpL f lv (act_comp a)) sA sB ->
-  comp_step0 cfg devf (NT cfg devf f) lv time extA a sA sA1 ansA caA oA ->
-  comp_step0 cfg devf (NT cfg devf f) lv time extB b sB sB1 ansB caB oB ->
+  comp_step0 cfg devf IA lv time extA a sA sA1 ansA caA oA ->
+  comp_step0 cfg devf IB lv time extB b sB sB1 ansB caB oB ->
   ch_equiv ansA ansB /\ caA = caB /\
   NSR (fpD f lv (act_comp a)) (fpL f lv (act_comp a)) sA1 sB1 /\ (forall d, obs_rel (dev_obs d oA) (dev_obs d oB)).
 Proof.
@@ -353,6 +358,8 @@ Variable ext_chg : values.
 Hypothesis Hok : subtree_ok (S f) lv.
 Variables roots ext : list comp.
 Variable s0 : sstate.
+Variable I : ntick_rel.
+Hypothesis HIfr : inner_framed f I.
 Notation conns := (l_conns (level_of cfg lv)).
 Notation comps := (lcomps (level_of cfg lv)).
 Notation FD := (fpD f lv).
@@ -363,7 +370,7 @@ Record SI (tr : list ev) (s : sstate) (ob : list obs) : Prop := {
       same_on (FD x) (FL x) s0 s /\ lookup x (wake_of s lv) = lookup x (wake_of s0 lv) /\ (forall d, In d (FD x) -> dev_obs d ob = []);
   si_an : forall x ch, In (EAnswer x ch) tr -> exists a sx sx1 ca o,
       In (EDispatch a) tr /\ act_comp a = x /\ same_on (FD x) (FL x) s0 sx /\
-      comp_step0 cfg devf (NT cfg devf f) lv time ext_chg a sx sx1 ch ca o /\
+      comp_step0 cfg devf I lv time ext_chg a sx sx1 ch ca o /\
       same_on (FD x) (FL x) sx1 s /\
       lookup x (wake_of s lv) = match ca with Some w => Some w | None => lookup x (wake_of s0 lv) end /\
       (forall d, In d (FD x) -> dev_obs d ob = dev_obs d o);
@@ -372,25 +379,15 @@ Record SI (tr : list ev) (s : sstate) (ob : list obs) : Prop := {
   si_nd : NoDup (keys (wake_of s0 lv)) -> NoDup (keys (wake_of s lv))
 }.
 
-Lemma srun_SI st tr s ob :
-  SRun cfg devf (NT cfg devf f) lv time ext_chg conns comps roots ext s0 st tr s ob -> SI tr s ob.
+(* one more answer: the component of the dispatch [a], not answered so far, handles it in the current state *)
+Lemma SI_step tr s ob a ch s2 ca o acts :
+  SI tr s ob -> ~ In (act_comp a) (ans_comps tr) -> In (EDispatch a) tr ->
+  comp_step0 cfg devf I lv time ext_chg a s s2 ch ca o ->
+  SI (tr ++ EAnswer (act_comp a) ch :: map EDispatch acts) (wake_upd s2 lv (act_comp a) ca) (ob ++ o).
 Proof.
   destruct (fp_facts f lv Hok) as [Hnlv Hdisj].
-  intros HR. induction HR as [st0 st1 acts H1 H2 H3 | st tr s ob c a ch s1 o st' acts fin HR IH Hc Ha Hac [s2 [ca [Hs Es1]]] Hp].
-  - constructor.
-    + intros x _. split; [apply same_on_refl|]. split; [reflexivity | intros d _; reflexivity].
-    + intros x ch Hi. exfalso. apply in_map_iff in Hi. destruct Hi as [a0 [E _]]. discriminate.
-    + reflexivity.
-    + reflexivity.
-    + auto.
-  - pose proof (SRun_Run cfg devf _ _ _ _ _ _ _ _ _ _ _ _ _ HR) as Hrun.
-    pose proof (run_inv conns comps time roots ext st tr Hrun) as HI.
-    assert (Hcna : ~ In c (ans_comps tr)).
-    { intros Hin. apply answered_In in Hin.
-      assert (Hpe : In c (pending st)) by (unfold pending, keys; apply in_map_iff; exists (c, true); split; [reflexivity | exact Hc]).
-      apply (i_ans _ _ _ _ _ _ HI c (i_sub _ _ _ _ _ _ HI c Hpe)) in Hin. contradiction. }
-    subst c. subst s1.
-    pose proof (comp_step0_framed f (NT cfg devf f) lv time ext_chg a s s2 ch ca o (NT_framed f) Hs) as Hfr.
+  intros IH Hcna Ha Hs.
+    pose proof (comp_step0_framed f I lv time ext_chg a s s2 ch ca o HIfr Hs) as Hfr.
     destruct Hfr as [FrD [FrL FrO]].
     assert (Hw2 : wake_of s2 lv = wake_of s lv) by (apply (FrL lv); intros Hi; apply (Hnlv _ _ Hi); reflexivity).
     assert (Hi2 : int_of s2 lv = int_of s lv) by (apply (FrL lv); intros Hi; apply (Hnlv _ _ Hi); reflexivity).
@@ -432,6 +429,47 @@ Proof.
     + intros Hnd. specialize (si_nd _ _ _ IH Hnd) as Hn. unfold wake_upd. destruct ca as [w|]; [|rewrite Hw2; exact Hn].
       rewrite wake_of_set_wake, Hw2. apply NoDup_keys_upd. exact Hn.
 Qed.
+
+(* further dispatches change nothing *)
+Lemma SI_disps tr s ob acts : SI tr s ob -> SI (tr ++ map EDispatch acts) s ob.
+Proof.
+  intros H.
+  assert (Ea : ans_comps (tr ++ map EDispatch acts) = ans_comps tr).
+  { rewrite ans_comps_app. replace (ans_comps (map EDispatch acts)) with (@nil comp); [apply app_nil_r|].
+    induction acts as [|a0 r IH]; [reflexivity | exact IH]. }
+  constructor.
+  - intros x Hx. rewrite Ea in Hx. exact (si_un _ _ _ H x Hx).
+  - intros x ch Hi. apply in_app_iff in Hi. destruct Hi as [Hi|Hi]; [|exfalso; apply in_map_iff in Hi; destruct Hi as [a0 [E _]]; discriminate].
+    destruct (si_an _ _ _ H x ch Hi) as [a0 [sx [sx1 [ca0 [o0 [A1 A2]]]]]].
+    exists a0, sx, sx1, ca0, o0. split; [apply in_app_iff; left; exact A1 | exact A2].
+  - exact (si_int _ _ _ H).
+  - exact (si_tk _ _ _ H).
+  - exact (si_nd _ _ _ H).
+Qed.
+
+Lemma SI_init tr : (forall x, ~ In x (ans_comps tr)) -> SI tr s0 [].
+Proof.
+  intros Hn. constructor.
+  - intros x _. split; [apply same_on_refl|]. split; [reflexivity | intros d _; reflexivity].
+  - intros x ch Hi. exfalso. apply (Hn x). apply answered_In. exists ch. exact Hi.
+  - reflexivity.
+  - reflexivity.
+  - auto.
+Qed.
+
+Lemma srun_SI st tr s ob :
+  SRun cfg devf I lv time ext_chg conns comps roots ext s0 st tr s ob -> SI tr s ob.
+Proof.
+  intros HR. induction HR as [st0 st1 acts H1 H2 H3 | st tr s ob c a ch s1 o st' acts fin HR IH Hc Ha Hac [s2 [ca [Hs Es1]]] Hp].
+  - apply SI_init. intros x Hx. apply answered_In in Hx. destruct Hx as [ch Hi]. apply in_map_iff in Hi. destruct Hi as [a0 [E _]]. discriminate.
+  - pose proof (SRun_Run cfg devf _ _ _ _ _ _ _ _ _ _ _ _ _ HR) as Hrun.
+    pose proof (run_inv conns comps time roots ext st tr Hrun) as HI.
+    assert (Hcna : ~ In c (ans_comps tr)).
+    { intros Hin. apply answered_In in Hin.
+      assert (Hpe : In c (pending st)) by (unfold pending, keys; apply in_map_iff; exists (c, true); split; [reflexivity | exact Hc]).
+      apply (i_ans _ _ _ _ _ _ HI c (i_sub _ _ _ _ _ _ HI c Hpe)) in Hin. contradiction. }
+    subst c. subst s1. apply (SI_step tr s ob a ch s2 ca o acts IH Hcna Ha Hs).
+Qed.
 End Level.
 
 (* ---------- two complete runs of one level *)
@@ -458,60 +496,111 @@ Proof.
   apply filter_In in Hh. destruct Hh as [_ Hb]. discriminate.
 Qed.
 
-Lemma level_det f lv time chgA chgB rootsA rootsB extA extB s0A s0B stA trA sA obA stB trB sB obB :
-  det_at f -> subtree_ok (S f) lv ->
+(* what the comparison of two ticks of a level needs to know about each: a trace of the ticker that is complete for its
+   extent, with the state threaded through the answers ([SI]) -- whether it comes from a run under some schedule
+   ([srun_LT]) or from the fold of Model/Sim.v (Proofs/SimNTP.v) *)
+Section LevelRel.
+Variable f : nat.
+Variable lv : positive.
+Variable time : Z.
+Hypothesis Hok : subtree_ok (S f) lv.
+Notation conns := (l_conns (level_of cfg lv)).
+Notation comps := (lcomps (level_of cfg lv)).
+
+Record LT (I : ntick_rel) (chg : values) (roots ext : list comp) (s0 : sstate) (tr : list ev) (s : sstate) (ob : list obs) : Prop := {
+  lt_gate : gate_from conns ext [] tr;
+  lt_dok : disp_ok conns time roots [] tr;
+  lt_nd : forall a, In (EDispatch a) tr -> nd_action a;
+  lt_ext : forall c, In c ext <-> exists r, In r roots /\ reach conns r c;
+  lt_fin : forall c, In c ext -> dispatched tr c /\ answered tr c;
+  lt_ans_ext : forall c, answered tr c -> In c ext;
+  lt_disp_ext : forall c, dispatched tr c -> In c ext;
+  lt_si : SI f lv time chg s0 I tr s ob;
+  lt_obs : forall e, In e ob -> In (obs_comp e) (devices_below cfg (S f) lv)
+}.
+
+Lemma srun_LT (I : ntick_rel) chg roots ext s0 st tr s ob :
+  inner_framed f I -> inner_nd I -> NoDup (keys chg) ->
+  SRun cfg devf I lv time chg conns comps roots ext s0 st tr s ob -> todo st = [] ->
+  LT I chg roots ext s0 tr s ob.
+Proof.
+  intros Hfr Hnd Hchg HR Ht.
+  pose proof (srun_SI f lv time chg Hok roots ext s0 I Hfr st tr s ob HR) as SIr.
+  pose proof (SRun_Run cfg devf _ _ _ _ _ _ _ _ _ _ _ _ _ HR) as Rn.
+  assert (Hlv : level_ok lv) by (destruct Hok as [_ [_ H]]; apply H; left; reflexivity).
+  destruct Hlv as [_ [_ [Hss _]]].
+  assert (Wf : wf_answers tr).
+  { intros c ch Hi. destruct (si_an _ _ _ _ _ _ _ _ _ SIr c ch Hi) as [a [sx [sx1 [ca [o [_ [_ [_ [A4 _]]]]]]]]].
+    apply (step_nd I lv time chg a sx sx1 ch ca o Hnd Hchg A4). }
+  pose proof (run_inv _ _ _ _ _ _ _ Rn) as HI.
+  constructor.
+  - exact (run_gate _ _ _ _ _ _ _ Rn).
+  - exact (run_disp_ok _ _ _ _ Hss _ _ _ Rn Wf).
+  - exact (run_dispatch_nd _ _ _ _ _ _ _ Rn).
+  - destruct (run_ext _ _ _ _ _ _ _ Rn) as [st0 [S0 E0]]. subst ext.
+    destruct (start_tick_spec _ _ _ st0 S0) as [_ [_ [_ [_ [_ H]]]]]. exact H.
+  - exact (run_finished _ _ _ _ _ _ _ Rn Ht).
+  - exact (i_ans_ext _ _ _ _ _ _ HI).
+  - exact (i_disp_ext _ _ _ _ _ _ HI).
+  - exact SIr.
+  - destruct (srun_framed f I lv time chg _ _ _ _ _ _ _ _ _ Hfr HR) as [_ [_ F]]. exact F.
+Qed.
+
+Lemma level_rel (IA IB : ntick_rel) chgA chgB rootsA rootsB extA extB s0A s0B trA sA obA trB sB obB :
+  rdet IA IB f -> inner_nd IA -> inner_nd IB ->
   NoDup (keys chgA) -> NoDup (keys chgB) -> eqv chgA chgB ->
   (forall c, In c rootsA <-> In c rootsB) ->
   NSR (devices_below cfg (S f) lv) (levels_below cfg (S f) lv) s0A s0B ->
-  SRun cfg devf (NT cfg devf f) lv time chgA (l_conns (level_of cfg lv)) (lcomps (level_of cfg lv)) rootsA extA s0A stA trA sA obA -> todo stA = [] ->
-  SRun cfg devf (NT cfg devf f) lv time chgB (l_conns (level_of cfg lv)) (lcomps (level_of cfg lv)) rootsB extB s0B stB trB sB obB -> todo stB = [] ->
+  LT IA chgA rootsA extA s0A trA sA obA -> LT IB chgB rootsB extB s0B trB sB obB ->
   eqv (exposed trA) (exposed trB) /\
   NSR (devices_below cfg (S f) lv) (levels_below cfg (S f) lv) sA sB /\
   (forall d, obs_rel (dev_obs d obA) (dev_obs d obB)).
 Proof.
-  intros Hdet Hok HnA HnB Hchg Hroots Hs0 HRA HtA HRB HtB.
-  pose proof (srun_SI f lv time chgA Hok rootsA extA s0A stA trA sA obA HRA) as SA.
-  pose proof (srun_SI f lv time chgB Hok rootsB extB s0B stB trB sB obB HRB) as SB.
-  pose proof (SRun_Run cfg devf _ _ _ _ _ _ _ _ _ _ _ _ _ HRA) as RA.
-  pose proof (SRun_Run cfg devf _ _ _ _ _ _ _ _ _ _ _ _ _ HRB) as RB.
+  intros Hdet HndA HndB HnA HnB Hchg Hroots Hs0 LA LB.
+  pose proof (lt_si _ _ _ _ _ _ _ _ LA) as SA. pose proof (lt_si _ _ _ _ _ _ _ _ LB) as SB.
   assert (Hlv : level_ok lv) by (destruct Hok as [_ [_ H]]; apply H; left; reflexivity).
   destruct Hlv as [Hnk [Hreal [Hss Hrank]]].
   set (RelA := fun (c : comp) (x a : changes) => exists sx sx1 ca o,
-        same_on (fpD f lv c) (fpL f lv c) s0A sx /\ comp_step0 cfg devf (NT cfg devf f) lv time chgA (Upd c time x) sx sx1 a ca o).
+        same_on (fpD f lv c) (fpL f lv c) s0A sx /\ comp_step0 cfg devf IA lv time chgA (Upd c time x) sx sx1 a ca o).
   set (RelB := fun (c : comp) (x a : changes) => exists sx sx1 ca o,
-        same_on (fpD f lv c) (fpL f lv c) s0B sx /\ comp_step0 cfg devf (NT cfg devf f) lv time chgB (Upd c time x) sx sx1 a ca o).
+        same_on (fpD f lv c) (fpL f lv c) s0B sx /\ comp_step0 cfg devf IB lv time chgB (Upd c time x) sx sx1 a ca o).
   assert (ArA : answers_rel RelA trA).
-  { intros c ch Hi. destruct (si_an _ _ _ _ _ _ _ _ SA c ch Hi) as [a [sx [sx1 [ca [o [A1 [A2 [A3 [A4 _]]]]]]]]].
+  { intros c ch Hi. destruct (si_an _ _ _ _ _ _ _ _ _ SA c ch Hi) as [a [sx [sx1 [ca [o [A1 [A2 [A3 [A4 _]]]]]]]]].
     exists a. split; [exact A1|]. split; [exact A2|]. destruct a as [c' t0 x|c' t0]; cbn [resp_rel].
     - cbn [act_comp] in A2. subst c'. exists sx, sx1, ca, o. split; [exact A3 | exact A4].
     - destruct A4 as [_ [E _]]. exact E. }
   assert (ArB : answers_rel RelB trB).
-  { intros c ch Hi. destruct (si_an _ _ _ _ _ _ _ _ SB c ch Hi) as [a [sx [sx1 [ca [o [A1 [A2 [A3 [A4 _]]]]]]]]].
+  { intros c ch Hi. destruct (si_an _ _ _ _ _ _ _ _ _ SB c ch Hi) as [a [sx [sx1 [ca [o [A1 [A2 [A3 [A4 _]]]]]]]]].
     exists a. split; [exact A1|]. split; [exact A2|]. destruct a as [c' t0 x|c' t0]; cbn [resp_rel].
     - cbn [act_comp] in A2. subst c'. exists sx, sx1, ca, o. split; [exact A3 | exact A4].
     - destruct A4 as [_ [E _]]. exact E. }
-  assert (WfA : wf_answers trA).
-  { intros c ch Hi. destruct (si_an _ _ _ _ _ _ _ _ SA c ch Hi) as [a [sx [sx1 [ca [o [_ [_ [_ [A4 _]]]]]]]]].
-    apply (step_nd f lv time chgA a sx sx1 ch ca o HnA A4). }
-  assert (WfB : wf_answers trB).
-  { intros c ch Hi. destruct (si_an _ _ _ _ _ _ _ _ SB c ch Hi) as [a [sx [sx1 [ca [o [_ [_ [_ [A4 _]]]]]]]]].
-    apply (step_nd f lv time chgB a sx sx1 ch ca o HnB A4). }
   assert (Rext : forall c x y a b, NoDup (keys x) -> NoDup (keys y) -> ch_equiv x y -> RelA c x a -> RelB c y b -> ch_equiv a b).
   { intros c x y a b Hx Hy Hxy [sx [sx1 [ca [o [S1 C1]]]]] [sy [sy1 [cb [o2 [S2 C2]]]]].
     assert (Hn : NSR (fpD f lv c) (fpL f lv c) sx sy).
     { apply (NSR_same_on _ _ s0A s0B); [|exact S1|exact S2].
       apply (NSR_mono _ _ _ _ _ _ (fpD_sub f lv c) (fpL_sub f lv c) Hs0). }
     assert (Hab : action_equiv (Upd c time x) (Upd c time y)) by (cbn; split; [reflexivity|]; split; [reflexivity | exact Hxy]).
-    destruct (step_det f lv time chgA chgB (Upd c time x) (Upd c time y) sx sy sx1 sy1 a b ca cb o o2 Hdet Hok HnA HnB Hchg Hab Hx Hy Hn C1 C2) as [H _].
+    destruct (step_det IA IB f lv time chgA chgB (Upd c time x) (Upd c time y) sx sy sx1 sy1 a b ca cb o o2 Hdet Hok HnA HnB Hchg Hab Hx Hy Hn C1 C2) as [H _].
     exact H. }
-  pose proof (confluent3 _ _ time Hss (fun c => idx c (lcomps (level_of cfg lv))) Hrank rootsA rootsB Hroots RelA RelB Rext
-                extA stA trA extB stB trB RA RB WfA WfB ArA ArB) as Conf.
-  pose proof (same_participants3 _ _ time rootsA rootsB Hroots extA stA trA extB stB trB RA RB HtA HtB) as Part.
+  assert (Hx : forall x, In x extA <-> In x extB).
+  { intros x. rewrite (lt_ext _ _ _ _ _ _ _ _ LA x), (lt_ext _ _ _ _ _ _ _ _ LB x).
+    split; intros [r [Hr Hre]]; exists r; (split; [apply Hroots; exact Hr | exact Hre]). }
+  assert (WA : WT3 conns time rootsA extA RelA trA).
+  { constructor; [exact (lt_gate _ _ _ _ _ _ _ _ LA) | exact (lt_dok _ _ _ _ _ _ _ _ LA) | exact (lt_ans_ext _ _ _ _ _ _ _ _ LA) | exact (lt_nd _ _ _ _ _ _ _ _ LA) | exact ArA]. }
+  assert (WB : WT3 conns time rootsB extB RelB trB).
+  { constructor; [exact (lt_gate _ _ _ _ _ _ _ _ LB) | exact (lt_dok _ _ _ _ _ _ _ _ LB) | exact (lt_ans_ext _ _ _ _ _ _ _ _ LB) | exact (lt_nd _ _ _ _ _ _ _ _ LB) | exact ArB]. }
+  assert (Conf : forall a1 a2, In (EDispatch a1) trA -> In (EDispatch a2) trB -> act_comp a1 = act_comp a2 -> action_equiv a1 a2).
+  { intros a1 a2 H1 H2 E.
+    apply (confluent_WT3 conns time (fun c => idx c comps) Hrank rootsA rootsB Hroots RelA RelB Rext extA trA extB trB WA WB Hx
+             (S (idx (act_comp a2) comps)) (act_comp a2) (Nat.lt_succ_diag_r _) a1 a2 H1 H2 E eq_refl). }
+  assert (Part : forall c, dispatched trA c <-> dispatched trB c).
+  { intros c. split; intros H.
+    - apply (lt_fin _ _ _ _ _ _ _ _ LB). apply Hx. apply (lt_disp_ext _ _ _ _ _ _ _ _ LA). exact H.
+    - apply (lt_fin _ _ _ _ _ _ _ _ LA). apply Hx. apply (lt_disp_ext _ _ _ _ _ _ _ _ LB). exact H. }
   assert (AnsAB : forall x, In x (ans_comps trA) <-> In x (ans_comps trB)).
-  { intros x. rewrite <- !answered_In. pose proof (same_extent3 _ _ time rootsA rootsB Hroots extA stA trA extB stB trB RA RB x) as Hx.
-    split; intros H.
-    - apply (run_finished _ _ _ _ _ _ _ RB HtB). apply Hx. apply (i_ans_ext _ _ _ _ _ _ (run_inv _ _ _ _ _ _ _ RA)). exact H.
-    - apply (run_finished _ _ _ _ _ _ _ RA HtA). apply Hx. apply (i_ans_ext _ _ _ _ _ _ (run_inv _ _ _ _ _ _ _ RB)). exact H. }
+  { intros x. rewrite <- !answered_In. split; intros H.
+    - apply (lt_fin _ _ _ _ _ _ _ _ LB). apply Hx. apply (lt_ans_ext _ _ _ _ _ _ _ _ LA). exact H.
+    - apply (lt_fin _ _ _ _ _ _ _ _ LA). apply Hx. apply (lt_ans_ext _ _ _ _ _ _ _ _ LB). exact H. }
   (* what the two runs leave on the footprint of one component *)
   assert (Comp : forall x, NSR (fpD f lv x) (fpL f lv x) sA sB /\ lookup x (wake_of sA lv) = lookup x (wake_of sB lv) /\
                            (forall d, In d (fpD f lv x) -> obs_rel (dev_obs d obA) (dev_obs d obB))).
@@ -521,19 +610,19 @@ Proof.
     destruct (in_dec Pos.eq_dec x (ans_comps trA)) as [Hin|Hnin].
     - pose proof (proj1 (AnsAB x) Hin) as HinB. apply answered_In in Hin. apply answered_In in HinB.
       destruct Hin as [chA HiA]. destruct HinB as [chB HiB].
-      destruct (si_an _ _ _ _ _ _ _ _ SA x chA HiA) as [a [sx [sx1 [ca [o [A1 [A2 [A3 [A4 [A5 [A6 A7]]]]]]]]]]].
-      destruct (si_an _ _ _ _ _ _ _ _ SB x chB HiB) as [b [sy [sy1 [cb [o2 [B1 [B2 [B3 [B4 [B5 [B6 B7]]]]]]]]]]].
+      destruct (si_an _ _ _ _ _ _ _ _ _ SA x chA HiA) as [a [sx [sx1 [ca [o [A1 [A2 [A3 [A4 [A5 [A6 A7]]]]]]]]]]].
+      destruct (si_an _ _ _ _ _ _ _ _ _ SB x chB HiB) as [b [sy [sy1 [cb [o2 [B1 [B2 [B3 [B4 [B5 [B6 B7]]]]]]]]]]].
       pose proof (Conf a b A1 B1 (eq_trans A2 (eq_sym B2))) as Hab.
       assert (Hn : NSR (fpD f lv x) (fpL f lv x) sx sy) by (apply (NSR_same_on _ _ s0A s0B); assumption).
       rewrite <- A2 in Hn.
-      destruct (step_det f lv time chgA chgB a b sx sy sx1 sy1 chA chB ca cb o o2 Hdet Hok HnA HnB Hchg Hab
-                  (run_dispatch_nd _ _ _ _ _ _ _ RA a A1) (run_dispatch_nd _ _ _ _ _ _ _ RB b B1) Hn A4 B4) as [_ [Eca [Hn1 Hob]]].
+      destruct (step_det IA IB f lv time chgA chgB a b sx sy sx1 sy1 chA chB ca cb o o2 Hdet Hok HnA HnB Hchg Hab
+                  (lt_nd _ _ _ _ _ _ _ _ LA a A1) (lt_nd _ _ _ _ _ _ _ _ LB b B1) Hn A4 B4) as [_ [Eca [Hn1 Hob]]].
       rewrite A2 in Hn1. subst cb.
       split; [apply (NSR_same_on _ _ sx1 sy1); assumption|]. split.
       + rewrite A6, B6, Hw0. reflexivity.
       + intros d Hd. rewrite (A7 d Hd), (B7 d Hd). apply Hob.
     - assert (HninB : ~ In x (ans_comps trB)) by (intros H; apply Hnin; apply AnsAB; exact H).
-      destruct (si_un _ _ _ _ _ _ _ _ SA x Hnin) as [U1 [U2 U3]]. destruct (si_un _ _ _ _ _ _ _ _ SB x HninB) as [V1 [V2 V3]].
+      destruct (si_un _ _ _ _ _ _ _ _ _ SA x Hnin) as [U1 [U2 U3]]. destruct (si_un _ _ _ _ _ _ _ _ _ SB x HninB) as [V1 [V2 V3]].
       split; [apply (NSR_same_on _ _ s0A s0B); assumption|]. split.
       + rewrite U2, V2. exact Hw0.
       + intros d Hd. rewrite (U3 d Hd), (V3 d Hd). constructor. }
@@ -549,21 +638,37 @@ Proof.
     + exfalso. destruct (find_dispatch_In _ _ _ EB) as [Ib Eb]. apply (find_dispatch_None _ _ EA). apply Part. exists b. split; assumption.
     + intros q. reflexivity.
   - split.
-    + intros d Hd. destruct (HD d Hd) as [x Hx]. destruct (Comp x) as [[Hdr _] _]. apply Hdr. exact Hx.
-    + intros l Hl. destruct (HL l Hl) as [->|[x Hx]].
+    + intros d Hd. destruct (HD d Hd) as [x Hx']. destruct (Comp x) as [[Hdr _] _]. apply Hdr. exact Hx'.
+    + intros l Hl. destruct (HL l Hl) as [->|[x Hx']].
       * destruct Hs0 as [_ HL0]. destruct (HL0 lv (or_introl eq_refl)) as [[Na [Nb W]] [Ei Et]].
         split; [|split].
-        -- split; [apply (si_nd _ _ _ _ _ _ _ _ SA Na)|]. split; [apply (si_nd _ _ _ _ _ _ _ _ SB Nb)|]. intros c. apply (Comp c).
-        -- rewrite (si_int _ _ _ _ _ _ _ _ SA), (si_int _ _ _ _ _ _ _ _ SB). exact Ei.
-        -- rewrite (si_tk _ _ _ _ _ _ _ _ SA), (si_tk _ _ _ _ _ _ _ _ SB). exact Et.
-      * destruct (Comp x) as [[_ Hlr] _]. apply Hlr. exact Hx.
+        -- split; [apply (si_nd _ _ _ _ _ _ _ _ _ SA Na)|]. split; [apply (si_nd _ _ _ _ _ _ _ _ _ SB Nb)|]. intros c. apply (Comp c).
+        -- rewrite (si_int _ _ _ _ _ _ _ _ _ SA), (si_int _ _ _ _ _ _ _ _ _ SB). exact Ei.
+        -- rewrite (si_tk _ _ _ _ _ _ _ _ _ SA), (si_tk _ _ _ _ _ _ _ _ _ SB). exact Et.
+      * destruct (Comp x) as [[_ Hlr] _]. apply Hlr. exact Hx'.
   - intros d. destruct (in_dec Pos.eq_dec d (devices_below cfg (S f) lv)) as [Hd|Hd].
-    + destruct (HD d Hd) as [x Hx]. apply (Comp x). exact Hx.
-    + destruct (srun_framed f _ lv time chgA _ _ _ _ _ _ _ _ _ (NT_framed f) HRA) as [_ [_ FA]].
-      destruct (srun_framed f _ lv time chgB _ _ _ _ _ _ _ _ _ (NT_framed f) HRB) as [_ [_ FB]].
-      rewrite (dev_obs_outside d obA _ FA Hd), (dev_obs_outside d obB _ FB Hd). constructor.
+    + destruct (HD d Hd) as [x Hx']. apply (Comp x). exact Hx'.
+    + rewrite (dev_obs_outside d obA _ (lt_obs _ _ _ _ _ _ _ _ LA) Hd), (dev_obs_outside d obB _ (lt_obs _ _ _ _ _ _ _ _ LB) Hd). constructor.
 Qed.
+End LevelRel.
 
+Lemma level_det f lv time chgA chgB rootsA rootsB extA extB s0A s0B stA trA sA obA stB trB sB obB :
+  det_at f -> subtree_ok (S f) lv ->
+  NoDup (keys chgA) -> NoDup (keys chgB) -> eqv chgA chgB ->
+  (forall c, In c rootsA <-> In c rootsB) ->
+  NSR (devices_below cfg (S f) lv) (levels_below cfg (S f) lv) s0A s0B ->
+  SRun cfg devf (NT cfg devf f) lv time chgA (l_conns (level_of cfg lv)) (lcomps (level_of cfg lv)) rootsA extA s0A stA trA sA obA -> todo stA = [] ->
+  SRun cfg devf (NT cfg devf f) lv time chgB (l_conns (level_of cfg lv)) (lcomps (level_of cfg lv)) rootsB extB s0B stB trB sB obB -> todo stB = [] ->
+  eqv (exposed trA) (exposed trB) /\
+  NSR (devices_below cfg (S f) lv) (levels_below cfg (S f) lv) sA sB /\
+  (forall d, obs_rel (dev_obs d obA) (dev_obs d obB)).
+Proof.
+  intros Hdet Hok HnA HnB Hchg Hroots Hs0 HRA HtA HRB HtB.
+  apply (level_rel f lv time Hok (NT cfg devf f) (NT cfg devf f) chgA chgB rootsA rootsB extA extB s0A s0B trA sA obA trB sB obB
+           Hdet (NT_inner_nd f) (NT_inner_nd f) HnA HnB Hchg Hroots Hs0
+           (srun_LT f lv time Hok _ chgA rootsA extA s0A stA trA sA obA (NT_framed f) (NT_inner_nd f) HnA HRA HtA)
+           (srun_LT f lv time Hok _ chgB rootsB extB s0B stB trB sB obB (NT_framed f) (NT_inner_nd f) HnB HRB HtB)).
+Qed.
 
 (* ---------- the prologue of a level's tick (due wakeups and interrupts are taken, the tick is logged) *)
 Lemma weq_filter_any (p : comp * Z -> bool) a b : weq a b -> weq (filter p a) (filter p b).
